@@ -21,9 +21,13 @@ variable {V W α β : Type}
 
 /-! ## The memo -/
 
-/-- every memo entry is keyed by an existing system and is the snapshot of that system's CURRENT tree -/
+/-- every reference held by a system designates an existing tree object -/
+def RefsOK (w : World V) : Prop := ∀ r ∈ w.systems, ∀ i, r.tree = some i → i < w.heap.length
+
+/-- the state is sound: references are valid, and every memo entry is keyed by an existing system and is
+    the snapshot of that system's CURRENT tree -/
 def MemoOK (w : World V) : Prop :=
-  ∀ k v, (k, v) ∈ w.memo → k.sys < w.systems.length ∧ v = snapshot (w.treeOf k.sys) k.date
+  RefsOK w ∧ ∀ k v, (k, v) ∈ w.memo → k.sys < w.systems.length ∧ v = snapshot (w.treeOf k.sys) k.date
 
 theorem memoFind_mem {k : Key} {m : List (Key × α)} {x : α} (h : memoFind k m = some x) : (k, x) ∈ m := by
   induction m with
@@ -56,19 +60,33 @@ theorem mem_memoTouch {k : Key} {x : α} {m : List (Key × α)} {p : Key × α} 
   · exact Or.inl h'
   · exact Or.inr (mem_memoErase h')
 
-theorem treeOf_of_get {w : World V} {s : Nat} {r : SysRec V} (h : w.systems[s]? = some r) :
-    w.treeOf s = r.tree := by
-  unfold World.treeOf; rw [h]
-
 theorem lt_of_get {l : List α} {s : Nat} {r : α} (h : l[s]? = some r) : s < l.length := by
   by_cases hs : s < l.length
   · exact hs
   · rw [List.getElem?_eq_none (by omega)] at h; cases h
 
+/-- the tree of a system depends on the systems and the objects only -/
+theorem treeOf_congr {w w' : World V} (h1 : w'.systems = w.systems) (h2 : w'.heap = w.heap) (s : Nat) :
+    w'.treeOf s = w.treeOf s := by
+  unfold World.treeOf; rw [h1, h2]
+
+theorem viewAt_frame {w w' : World V} {s form : Nat} {d : Int} {v : Option (Snap V)}
+    (h : viewAt w s form d = some (w', v)) : w'.systems = w.systems ∧ w'.heap = w.heap := by
+  unfold viewAt at h
+  cases hr : w.systems[s]? with
+  | none => rw [hr] at h; cases h
+  | some r =>
+    rw [hr] at h
+    simp only at h
+    cases hf : memoFind ⟨s, form, d⟩ w.memo with
+    | some v0 => rw [hf] at h; cases h; exact ⟨rfl, rfl⟩
+    | none => rw [hf] at h; cases h; exact ⟨rfl, rfl⟩
+
 /-- a view read returns the snapshot of the current tree, whatever was read or changed before -/
 theorem viewAt_spec {w w' : World V} {s form : Nat} {d : Int} {v : Option (Snap V)}
     (hw : MemoOK w) (h : viewAt w s form d = some (w', v)) :
-    v = snapshot (w.treeOf s) d ∧ MemoOK w' ∧ w'.systems = w.systems := by
+    v = snapshot (w.treeOf s) d ∧ MemoOK w' ∧ w'.systems = w.systems ∧ w'.heap = w.heap := by
+  obtain ⟨hf1, hf2⟩ := viewAt_frame h
   unfold viewAt at h
   cases hr : w.systems[s]? with
   | none => rw [hr] at h; cases h
@@ -78,25 +96,26 @@ theorem viewAt_spec {w w' : World V} {s form : Nat} {d : Int} {v : Option (Snap 
     have hlt := lt_of_get hr
     have key : ∀ v0, v0 = snapshot (w.treeOf s) d →
         MemoOK ({ w with memo := memoTouch ⟨s, form, d⟩ v0 w.memo } : World V) := by
-      intro v0 hv0 k x hkx
+      intro v0 hv0
+      refine ⟨hw.1, ?_⟩
+      intro k x hkx
       rcases mem_memoTouch hkx with hkx | hkx
       · cases hkx; exact ⟨hlt, hv0⟩
-      · exact hw k x hkx
+      · exact hw.2 k x hkx
     cases hf : memoFind ⟨s, form, d⟩ w.memo with
     | some v0 =>
       rw [hf] at h
       simp only [Option.some.injEq, Prod.mk.injEq] at h
       obtain ⟨h1, h2⟩ := h
-      have hv0 := (hw _ _ (memoFind_mem hf)).2
+      have hv0 := (hw.2 _ _ (memoFind_mem hf)).2
       subst h1; subst h2
-      exact ⟨hv0, key _ hv0, rfl⟩
+      exact ⟨hv0, key _ hv0, rfl, rfl⟩
     | none =>
       rw [hf] at h
       simp only [Option.some.injEq, Prod.mk.injEq] at h
       obtain ⟨h1, h2⟩ := h
-      have hv0 : snapshot r.tree d = snapshot (w.treeOf s) d := by rw [treeOf_of_get hr]
       subst h1; subst h2
-      exact ⟨hv0, key _ hv0, rfl⟩
+      exact ⟨rfl, key _ rfl, rfl, rfl⟩
 
 theorem viewAt_isSome {w : World V} {s : Nat} (form : Nat) (d : Int) (hs : s < w.systems.length) :
     ∃ w' v, viewAt w s form d = some (w', v) := by
@@ -107,70 +126,64 @@ theorem viewAt_isSome {w : World V} {s : Nat} (form : Nat) (d : Int) (hs : s < w
   | some v0 => exact ⟨_, _, rfl⟩
   | none => exact ⟨_, _, rfl⟩
 
-theorem memoOK_nil (systems : List (SysRec V)) : MemoOK (⟨systems, []⟩ : World V) := by
-  intro k v h; simp at h
+theorem memoOK_of_nil {w : World V} (hr : RefsOK w) (hm : w.memo = []) : MemoOK w := by
+  refine ⟨hr, ?_⟩
+  intro k v h; rw [hm] at h; cases h
 
-theorem treeOf_append_of_lt (w : World V) (x : SysRec V) {s : Nat} (hs : s < w.systems.length) :
-    ({ w with systems := w.systems ++ [x] } : World V).treeOf s = w.treeOf s := by
-  unfold World.treeOf
-  simp only
-  rw [List.getElem?_append_left hs]
+theorem readViewOf_frame (w : World V) (s form : Nat) (d : Int) (path : List String) :
+    (readViewOf w s form d path).1.systems = w.systems ∧ (readViewOf w s form d path).1.heap = w.heap := by
+  unfold readViewOf
+  cases hv : viewAt w s form d with
+  | none => exact ⟨rfl, rfl⟩
+  | some p => obtain ⟨w', root⟩ := p; exact viewAt_frame hv
 
-theorem viewAt_systems {w w' : World V} {s form : Nat} {d : Int} {v : Option (Snap V)}
-    (h : viewAt w s form d = some (w', v)) : w'.systems = w.systems := by
-  unfold viewAt at h
-  cases hr : w.systems[s]? with
-  | none => rw [hr] at h; cases h
-  | some r =>
-    rw [hr] at h
-    simp only at h
-    cases hf : memoFind ⟨s, form, d⟩ w.memo with
-    | some v0 => rw [hf] at h; cases h; rfl
-    | none => rw [hf] at h; cases h; rfl
+theorem readViewOf_memoOK (w : World V) (hw : MemoOK w) (s form : Nat) (d : Int) (path : List String) :
+    MemoOK (readViewOf w s form d path).1 := by
+  unfold readViewOf
+  cases hv : viewAt w s form d with
+  | none => exact hw
+  | some p => obtain ⟨w', root⟩ := p; exact (viewAt_spec hw hv).2.1
 
 /-- a read changes nothing but the memo -/
-theorem doRead_systems (w : World V) (rd : Read) : (doRead w rd).1.systems = w.systems := by
+theorem doRead_frame (w : World V) (rd : Read) :
+    (doRead w rd).1.systems = w.systems ∧ (doRead w rd).1.heap = w.heap := by
   cases rd with
-  | view s form d path =>
-    simp only [doRead]
-    cases hv : viewAt w s form d with
-    | none => rfl
-    | some p => obtain ⟨w', root⟩ := p; exact viewAt_systems hv
+  | view s form d path => exact readViewOf_frame w s form d path
+  | baseView s form d path => exact readViewOf_frame w _ form d path
   | tree s path d =>
     simp only [doRead]
     cases hr : w.systems[s]? with
-    | none => rfl
+    | none => exact ⟨rfl, rfl⟩
     | some r =>
       simp only
-      cases r.tree with
-      | none => rfl
-      | some t => rfl
+      cases w.treeOf s with
+      | none => exact ⟨rfl, rfl⟩
+      | some t => exact ⟨rfl, rfl⟩
   | formula s traced form d path =>
     simp only [doRead]
     cases hv : viewAt w s form d with
-    | none => rfl
+    | none => exact ⟨rfl, rfl⟩
     | some p =>
       obtain ⟨w', root⟩ := p
       simp only
       cases traced with
-      | true => exact viewAt_systems hv
-      | false => exact viewAt_systems hv
+      | true => exact viewAt_frame hv
+      | false => exact viewAt_frame hv
 
-/-- a read keeps the memo sound -/
+theorem doRead_systems (w : World V) (rd : Read) : (doRead w rd).1.systems = w.systems := (doRead_frame w rd).1
+
+/-- a read keeps the state sound -/
 theorem doRead_memoOK (w : World V) (hw : MemoOK w) (rd : Read) : MemoOK (doRead w rd).1 := by
   cases rd with
-  | view s form d path =>
-    simp only [doRead]
-    cases hv : viewAt w s form d with
-    | none => exact hw
-    | some p => obtain ⟨w', root⟩ := p; exact (viewAt_spec hw hv).2.1
+  | view s form d path => exact readViewOf_memoOK w hw s form d path
+  | baseView s form d path => exact readViewOf_memoOK w hw _ form d path
   | tree s path d =>
     simp only [doRead]
     cases hr : w.systems[s]? with
     | none => exact hw
     | some r =>
       simp only
-      cases r.tree with
+      cases w.treeOf s with
       | none => exact hw
       | some t => exact hw
   | formula s traced form d path =>
@@ -184,9 +197,21 @@ theorem doRead_memoOK (w : World V) (hw : MemoOK w) (rd : Read) : MemoOK (doRead
       | true => exact (viewAt_spec hw hv).2.1
       | false => exact (viewAt_spec hw hv).2.1
 
-/-- whatever a user function reads while a modification is under way, the systems are untouched and
-    the memo stays sound with respect to the trees in place (the FORMER tree of the system being
-    modified) -/
+theorem runProg_frame (w : World V) (p : ModProg V) :
+    (runProg w p).1.systems = w.systems ∧ (runProg w p).1.heap = w.heap := by
+  induction p generalizing w with
+  | ret r => exact ⟨rfl, rfl⟩
+  | read rd k ih =>
+    simp only [runProg]
+    obtain ⟨h1, h2⟩ := ih (doRead w rd).2 (doRead w rd).1
+    obtain ⟨h3, h4⟩ := doRead_frame w rd
+    exact ⟨by rw [h1, h3], by rw [h2, h4]⟩
+
+theorem runProg_systems (w : World V) (p : ModProg V) : (runProg w p).1.systems = w.systems := (runProg_frame w p).1
+
+/-- whatever a user function reads while a modification is under way, the systems and the tree objects
+    are untouched and the memo stays sound with respect to the trees in place (the FORMER tree of the
+    system being modified) -/
 theorem runProg_spec (w : World V) (hw : MemoOK w) (p : ModProg V) :
     MemoOK (runProg w p).1 ∧ (runProg w p).1.systems = w.systems := by
   induction p generalizing w with
@@ -196,29 +221,86 @@ theorem runProg_spec (w : World V) (hw : MemoOK w) (p : ModProg V) :
     obtain ⟨h1, h2⟩ := ih (doRead w rd).2 (doRead w rd).1 (doRead_memoOK w hw rd)
     exact ⟨h1, by rw [h2, doRead_systems]⟩
 
-theorem runProg_systems (w : World V) (p : ModProg V) : (runProg w p).1.systems = w.systems := by
-  induction p generalizing w with
-  | ret r => rfl
-  | read rd k ih =>
-    simp only [runProg]
-    rw [ih, doRead_systems]
+theorem refsOK_congr {w w' : World V} (h1 : w'.systems = w.systems) (h2 : w'.heap = w.heap) (h : RefsOK w) :
+    RefsOK w' := by
+  unfold RefsOK; rw [h1, h2]; exact h
 
-/-- every operation preserves the invariant -/
+/-! ## Installing a new tree object -/
+
+theorem length_install (w : World V) (s : Nat) (t : PNode V) : (install w s t).systems.length = w.systems.length := by
+  simp [install]
+
+theorem refsOK_install (w : World V) (hr : RefsOK w) (s : Nat) (t : PNode V) : RefsOK (install w s t) := by
+  intro r hr' i hi
+  simp only [install, List.length_append, List.length_cons, List.length_nil] at *
+  obtain ⟨j, hj, hrj⟩ := List.getElem_of_mem hr'
+  rw [List.getElem_modify] at hrj
+  by_cases hjs : s = j
+  · rw [if_pos hjs] at hrj
+    rw [← hrj] at hi
+    simp only [Option.some.injEq] at hi
+    omega
+  · rw [if_neg hjs] at hrj
+    have : i < w.heap.length := hr _ (List.getElem_mem _) i (by rw [hrj]; exact hi)
+    omega
+
+theorem memoOK_install (w : World V) (hr : RefsOK w) (s : Nat) (t : PNode V) : MemoOK (install w s t) :=
+  memoOK_of_nil (refsOK_install w hr s t) rfl
+
+theorem treeOf_install_eq (w : World V) (s : Nat) (t : PNode V) (h : s < w.systems.length) :
+    (install w s t).treeOf s = some t := by
+  unfold World.treeOf install
+  simp only
+  rw [List.getElem?_modify_eq, List.getElem?_eq_getElem h]
+  simp
+
+theorem treeOf_install_ne (w : World V) (hr : RefsOK w) (s s' : Nat) (t : PNode V) (h : s' ≠ s) :
+    (install w s t).treeOf s' = w.treeOf s' := by
+  unfold World.treeOf install
+  simp only
+  rw [List.getElem?_modify_ne _ _ (fun c => h c.symm)]
+  cases hs : w.systems[s']? with
+  | none => rfl
+  | some r =>
+    simp only
+    cases hi : r.tree with
+    | none => rfl
+    | some i =>
+      simp only
+      have : i < w.heap.length := hr r (List.mem_of_getElem? hs) i hi
+      rw [List.getElem?_append_left this]
+
+theorem treeOf_append_of_lt (w : World V) (x : SysRec) {s : Nat} (hs : s < w.systems.length) :
+    ({ w with systems := w.systems ++ [x] } : World V).treeOf s = w.treeOf s := by
+  unfold World.treeOf
+  simp only
+  rw [List.getElem?_append_left hs]
+
+/-! ## Every operation keeps the state sound -/
+
 theorem step_memoOK (w : World V) (hw : MemoOK w) (op : Op V) : MemoOK (step w op).1 := by
   cases op with
   | readView s form d path => exact doRead_memoOK w hw _
   | readTree s path d => exact doRead_memoOK w hw _
   | readFormula s traced form d path => exact doRead_memoOK w hw _
+  | read rd => exact doRead_memoOK w hw _
   | newReform b =>
     simp only [step]
     cases hr : w.systems[b]? with
     | none => exact hw
     | some r =>
       simp only
-      intro k v hkv
-      obtain ⟨h1, h2⟩ := hw k v hkv
-      refine ⟨by simp only [List.length_append, List.length_cons, List.length_nil]; omega, ?_⟩
-      rw [treeOf_append_of_lt w _ h1]; exact h2
+      refine ⟨?_, ?_⟩
+      · intro r' hr' i hi
+        simp only [List.mem_append, List.mem_cons, List.not_mem_nil, or_false] at hr'
+        rcases hr' with hr' | hr'
+        · exact hw.1 r' hr' i hi
+        · rw [hr'] at hi
+          exact hw.1 r (List.mem_of_getElem? hr) i hi
+      · intro k v hkv
+        obtain ⟨h1, h2⟩ := hw.2 k v hkv
+        refine ⟨by simp only [List.length_append, List.length_cons, List.length_nil]; omega, ?_⟩
+        rw [treeOf_append_of_lt w _ h1]; exact h2
   | modify s f =>
     simp only [step]
     cases hr : w.systems[s]? with
@@ -229,7 +311,7 @@ theorem step_memoOK (w : World V) (hw : MemoOK w) (op : Op V) : MemoOK (step w o
       | none => exact hw
       | some b =>
         simp only
-        cases r.tree with
+        cases w.treeOf s with
         | none => exact hw
         | some t =>
           simp only
@@ -242,7 +324,7 @@ theorem step_memoOK (w : World V) (hw : MemoOK w) (op : Op V) : MemoOK (step w o
             | ok t' =>
               simp only
               by_cases hn : isNode t' = true
-              · rw [if_pos hn]; exact memoOK_nil _
+              · rw [if_pos hn]; exact memoOK_install w1 hp.1 s t'
               · rw [if_neg hn]; exact hp
   | reload s cs hook =>
     simp only [step]
@@ -256,36 +338,41 @@ theorem step_memoOK (w : World V) (hw : MemoOK w) (op : Op V) : MemoOK (step w o
         rw [hrp] at hp
         cases res with
         | error e => exact hp
-        | ok t' => exact memoOK_nil _
+        | ok t' => exact memoOK_install w1 hp.1 s t'
+  | extend s ext =>
+    simp only [step]
+    cases hr : w.systems[s]? with
+    | none => exact hw
+    | some r =>
+      simp only
+      cases hi : r.tree with
+      | none => exact memoOK_of_nil hw.1 rfl
+      | some i =>
+        simp only
+        cases hh : w.heap[i]? with
+        | none => exact memoOK_of_nil hw.1 rfl
+        | some t =>
+          cases t with
+          | param l => exact memoOK_of_nil hw.1 rfl
+          | scale m bs => exact memoOK_of_nil hw.1 rfl
+          | node cs =>
+            refine memoOK_of_nil ?_ rfl
+            intro r' hr' j hj
+            simp only [List.length_set]
+            exact hw.1 r' hr' j hj
 
 theorem run_memoOK (w : World V) (hw : MemoOK w) (ops : List (Op V)) : MemoOK (run w ops) := by
   induction ops generalizing w with
   | nil => exact hw
   | cons op ops ih => exact ih _ (step_memoOK w hw op)
 
-theorem init_memoOK : MemoOK (World.init : World V) := memoOK_nil _
+theorem init_memoOK : MemoOK (World.init : World V) := by
+  refine memoOK_of_nil ?_ rfl
+  intro r hr i hi
+  simp only [World.init, List.mem_cons, List.not_mem_nil, or_false] at hr
+  rw [hr] at hi; cases hi
 
 /-! ## Which trees an operation can change -/
-
-theorem treeOf_setTree_ne (systems : List (SysRec V)) (memo memo') (s s' : Nat) (t : PNode V) (h : s' ≠ s) :
-    (⟨setTree systems s t, memo'⟩ : World V).treeOf s' = (⟨systems, memo⟩ : World V).treeOf s' := by
-  unfold World.treeOf setTree
-  simp only
-  rw [List.getElem?_modify_ne _ _ (fun c => h c.symm)]
-
-theorem treeOf_setTree_eq (systems : List (SysRec V)) (memo') (s : Nat) (t : PNode V) (h : s < systems.length) :
-    (⟨setTree systems s t, memo'⟩ : World V).treeOf s = some t := by
-  unfold World.treeOf setTree
-  simp only
-  rw [List.getElem?_modify_eq, List.getElem?_eq_getElem h]
-  rfl
-
-theorem length_setTree (systems : List (SysRec V)) (s : Nat) (t : PNode V) :
-    (setTree systems s t).length = systems.length := by
-  unfold setTree; simp
-
-theorem treeOf_congr {w w' : World V} (h : w'.systems = w.systems) (s : Nat) : w'.treeOf s = w.treeOf s := by
-  unfold World.treeOf; rw [h]
 
 /-- the number of systems never decreases -/
 theorem step_length_le (w : World V) (op : Op V) : w.systems.length ≤ (step w op).1.systems.length := by
@@ -293,6 +380,7 @@ theorem step_length_le (w : World V) (op : Op V) : w.systems.length ≤ (step w 
   | readView s form d path => simp only [step, doRead_systems]; exact Nat.le_refl _
   | readTree s path d => simp only [step, doRead_systems]; exact Nat.le_refl _
   | readFormula s traced form d path => simp only [step, doRead_systems]; exact Nat.le_refl _
+  | read rd => simp only [step, doRead_systems]; exact Nat.le_refl _
   | newReform b =>
     simp only [step]
     cases hr : w.systems[b]? with
@@ -308,7 +396,7 @@ theorem step_length_le (w : World V) (op : Op V) : w.systems.length ≤ (step w 
       | none => exact Nat.le_refl _
       | some b =>
         simp only
-        cases r.tree with
+        cases w.treeOf s with
         | none => exact Nat.le_refl _
         | some t =>
           simp only
@@ -322,7 +410,7 @@ theorem step_length_le (w : World V) (op : Op V) : w.systems.length ≤ (step w 
             | ok t' =>
               simp only
               by_cases hn : isNode t' = true
-              · rw [if_pos hn]; simp only [length_setTree, hp]; exact Nat.le_refl _
+              · rw [if_pos hn]; simp only [length_install, hp]; exact Nat.le_refl _
               · rw [if_neg hn]; simp only [hp]; exact Nat.le_refl _
   | reload s cs hook =>
     simp only [step]
@@ -337,15 +425,34 @@ theorem step_length_le (w : World V) (op : Op V) : w.systems.length ≤ (step w 
         simp only at hp
         cases res with
         | error e => simp only [hp]; exact Nat.le_refl _
-        | ok t' => simp only [length_setTree, hp]; exact Nat.le_refl _
+        | ok t' => simp only [length_install, hp]; exact Nat.le_refl _
+  | extend s ext =>
+    simp only [step]
+    cases hr : w.systems[s]? with
+    | none => exact Nat.le_refl _
+    | some r =>
+      simp only
+      cases hi : r.tree with
+      | none => exact Nat.le_refl _
+      | some i =>
+        simp only
+        cases hh : w.heap[i]? with
+        | none => exact Nat.le_refl _
+        | some t =>
+          cases t with
+          | param l => exact Nat.le_refl _
+          | scale m bs => exact Nat.le_refl _
+          | node cs => exact Nat.le_refl _
 
-/-- an operation that does not target system `s'` leaves the tree of `s'` alone -/
-theorem step_treeOf_other (w : World V) (op : Op V) (s' : Nat) (hs' : s' < w.systems.length)
-    (ht : op.target ≠ some s') : (step w op).1.treeOf s' = w.treeOf s' := by
+/-- an operation that neither replaces the tree of `s'` nor changes a tree object in place leaves the
+    tree of `s'` alone -/
+theorem step_treeOf_other (w : World V) (hw : RefsOK w) (op : Op V) (s' : Nat) (hs' : s' < w.systems.length)
+    (ht : op.target ≠ some s') (hip : op.inPlace = false) : (step w op).1.treeOf s' = w.treeOf s' := by
   cases op with
-  | readView s form d path => exact treeOf_congr (doRead_systems w _) s'
-  | readTree s path d => exact treeOf_congr (doRead_systems w _) s'
-  | readFormula s traced form d path => exact treeOf_congr (doRead_systems w _) s'
+  | readView s form d path => exact treeOf_congr (doRead_frame w _).1 (doRead_frame w _).2 s'
+  | readTree s path d => exact treeOf_congr (doRead_frame w _).1 (doRead_frame w _).2 s'
+  | readFormula s traced form d path => exact treeOf_congr (doRead_frame w _).1 (doRead_frame w _).2 s'
+  | read rd => exact treeOf_congr (doRead_frame w _).1 (doRead_frame w _).2 s'
   | newReform b =>
     simp only [step]
     cases hr : w.systems[b]? with
@@ -362,23 +469,23 @@ theorem step_treeOf_other (w : World V) (op : Op V) (s' : Nat) (hs' : s' < w.sys
       | none => rfl
       | some b =>
         simp only
-        cases r.tree with
+        cases w.treeOf s with
         | none => rfl
         | some t =>
           simp only
-          have hp := runProg_systems w (f t)
+          have hp := runProg_frame w (f t)
           cases hrp : runProg w (f t) with
           | mk w1 res =>
             rw [hrp] at hp
             simp only at hp
             cases res with
-            | error e => exact treeOf_congr hp s'
+            | error e => exact treeOf_congr hp.1 hp.2 s'
             | ok t' =>
               simp only
               by_cases hn : isNode t' = true
-              · rw [if_pos hn, treeOf_setTree_ne w1.systems w1.memo [] s s' t' hne]
-                exact treeOf_congr hp s'
-              · rw [if_neg hn]; exact treeOf_congr hp s'
+              · rw [if_pos hn, treeOf_install_ne w1 (refsOK_congr hp.1 hp.2 hw) s s' t' hne]
+                exact treeOf_congr hp.1 hp.2 s'
+              · rw [if_neg hn]; exact treeOf_congr hp.1 hp.2 s'
   | reload s cs hook =>
     have hne : s' ≠ s := fun c => ht (by rw [c]; rfl)
     simp only [step]
@@ -386,27 +493,29 @@ theorem step_treeOf_other (w : World V) (op : Op V) (s' : Nat) (hs' : s' < w.sys
     | none => rfl
     | some r =>
       simp only
-      have hp := runProg_systems w (hook (.node cs))
+      have hp := runProg_frame w (hook (.node cs))
       cases hrp : runProg w (hook (.node cs)) with
       | mk w1 res =>
         rw [hrp] at hp
         simp only at hp
         cases res with
-        | error e => exact treeOf_congr hp s'
+        | error e => exact treeOf_congr hp.1 hp.2 s'
         | ok t' =>
           simp only
-          rw [treeOf_setTree_ne w1.systems w1.memo [] s s' t' hne]
-          exact treeOf_congr hp s'
+          rw [treeOf_install_ne w1 (refsOK_congr hp.1 hp.2 hw) s s' t' hne]
+          exact treeOf_congr hp.1 hp.2 s'
+  | extend s ext => simp [Op.inPlace] at hip
 
-theorem run_treeOf_other (w : World V) (ops : List (Op V)) (s' : Nat) (hs' : s' < w.systems.length)
-    (ht : ∀ op ∈ ops, op.target ≠ some s') :
+theorem run_treeOf_other (w : World V) (hw : MemoOK w) (ops : List (Op V)) (s' : Nat) (hs' : s' < w.systems.length)
+    (ht : ∀ op ∈ ops, op.target ≠ some s' ∧ op.inPlace = false) :
     (run w ops).treeOf s' = w.treeOf s' ∧ s' < (run w ops).systems.length := by
   induction ops generalizing w with
   | nil => exact ⟨rfl, hs'⟩
   | cons op ops ih =>
-    have h1 := step_treeOf_other w op s' hs' (ht op (List.mem_cons_self ..))
+    obtain ⟨ht1, ht2⟩ := ht op (List.mem_cons_self ..)
+    have h1 := step_treeOf_other w hw.1 op s' hs' ht1 ht2
     have h2 : s' < (step w op).1.systems.length := Nat.lt_of_lt_of_le hs' (step_length_le w op)
-    obtain ⟨h3, h4⟩ := ih (step w op).1 h2 (fun o ho => ht o (List.mem_cons_of_mem _ ho))
+    obtain ⟨h3, h4⟩ := ih (step w op).1 (step_memoOK w hw op) h2 (fun o ho => ht o (List.mem_cons_of_mem _ ho))
     exact ⟨by show (run (step w op).1 ops).treeOf s' = _; rw [h3, h1], h4⟩
 
 /-! ## Attribute paths commute with evaluation at an instant -/
@@ -1418,5 +1527,20 @@ theorem fancy_field_spec (num : V → Option W) (cs : List (String × Snap V)) (
       rw [hfy] at hfi
       refine ⟨cs', c', y, hc, hc', hy, ?_⟩
       rw [List.getElem?_eq_getElem hi'', ← Option.some.inj hfi]
+
+/-! ## `merge` -/
+
+theorem assoc_append_single (k k' : String) (c : PNode V) (cs : List (String × PNode V)) :
+    assoc k (cs ++ [(k', c)]) = match assoc k cs with
+      | some x => some x
+      | none => if k' = k then some c else none := by
+  induction cs with
+  | nil => simp [assoc]
+  | cons p r ih =>
+    obtain ⟨k2, c2⟩ := p
+    simp only [List.cons_append, assoc]
+    by_cases h : k2 = k
+    · rw [if_pos h, if_pos h]
+    · rw [if_neg h, if_neg h]; exact ih
 
 end OFCore.PView
